@@ -15,7 +15,7 @@ from lib import emitcheck as E
 
 ID = 'C12'
 IMPORTS = E.IMPORTS
-THEOREMS = ['C12_repr_cannot_escape', 'C12_repr_cannot_escape_before', 'C12_repr_no_newline', 'C12_source_text_positions', 'C12_lines_one_line', 'C12_compile_program_shape', 'C12_emit_names_whitelisted', 'C12_no_capture', 'C12_reserved_not_local', 'C12_reserved_exact', 'C12_api_not_callable', 'C12_predicate_keys_never_api_names']
+THEOREMS = ['C12_repr_cannot_escape', 'C12_repr_cannot_escape_before', 'C12_repr_no_newline', 'C12_source_text_positions', 'C12_lines_one_line', 'C12_front_lexical', 'C12_compile_program_shape', 'C12_emit_names_whitelisted', 'C12_no_capture', 'C12_reserved_not_local', 'C12_reserved_exact', 'C12_api_not_callable', 'C12_predicate_keys_never_api_names']
 RULE = ('sources with 1-4 hostile quoted atoms (quotes of both kinds, line breaks, CR, NUL, control, #, triple quotes, Python statements, '
         'non-ASCII printable and non-printable code points, lone surrogates) placed in fact arguments, head arguments, goal names, goal '
         'arguments, list elements, functor names, nested compound terms and as clause-head names (must be rejected); variables named like '
